@@ -158,6 +158,41 @@ Theorem C07_sketch_roundtrip_canon : forall (wx : wfixes) (s : sketch) (p n : bi
 Proof. exact sketch_roundtrip_canon. Qed.
 Print Assumptions C07_sketch_roundtrip_canon.
 
+(* integer weights below 2^53 satisfy the exactness premises ([sparse_wire_ok], [sketch_wire_ok], [dense_wire_ok]) *)
+Theorem C07_wexact_int : forall n : Z, (0 <= n < 9007199254740992)%Z -> wexact (w_of_Z n).
+Proof. exact wexact_int. Qed.
+Print Assumptions C07_wexact_int.
+
+(* G4: DenseStore.Encode, both layouts ([c] = which one the size comparison picked); [minI <= maxI] holds for
+   every non-empty store satisfying the representation invariant of Store/DenseProofs.v (inv_win) *)
+Theorem C07_enc_dense_grammar : forall (d : dense) (neg : bool), (minI d <= maxI d)%Z ->
+  exists c, enc_dense d (ty_of neg) = serialize (dense_blocks neg d c).
+Proof. exact enc_dense_grammar. Qed.
+Print Assumptions C07_enc_dense_grammar.
+
+Theorem C07_enc_dense_ref_decode : forall d : dense, dense_wire_ok d -> is_empty d = false ->
+  exists c, ref_decode (enc_dense d ft_positive) = Some c /\ c_pos c = bins_of_list (dense_cells d) /\ c_neg c = [].
+Proof. exact enc_dense_ref_decode. Qed.
+Print Assumptions C07_enc_dense_ref_decode.
+
+Theorem C07_enc_dense_sparse_decode : forall (d : dense) (m : bins), dense_wire_ok d -> is_empty d = false ->
+  exists f body, enc_dense d ft_positive = f :: body /\ flag_type f = ft_positive
+                 /\ dec_bins (SS m) (flag_sub f) body = DOk (SS (bmerge_list m (dense_cells d))) [].
+Proof. exact enc_dense_sparse_decode. Qed.
+Print Assumptions C07_enc_dense_sparse_decode.
+
+(* on ALL byte strings, well formed or not: store.go's generic decoder with a sparse receiver = the reference
+   parser followed by the merge of the parsed bins; its only failure is io.EOF *)
+Theorem C07_sparse_decoder_is_reference : forall (m : bins) (sub : N) (b : list byte),
+  sub = SUB_BINS_IDC \/ sub = SUB_BINS_ID \/ sub = SUB_BINS_CC ->
+  dec_bins_generic (SS m) (sub * 4)%N b =
+  match parse_bins sub b with
+  | Some (bb, r) => DOk (SS (bmerge_list m (bins_of_block_w f2q bb))) r
+  | None => DErr EEof
+  end.
+Proof. exact sparse_dec_bins_agrees. Qed.
+Print Assumptions C07_sparse_decoder_is_reference.
+
 (* ================================================================== *)
 (* C06: concatenation of encodings = merge                             *)
 (* ================================================================== *)
@@ -174,7 +209,7 @@ Theorem C06_sem_app_bins : forall a b : stream,
   c_neg (sem (a ++ b)) = bmerge_list (c_neg (sem a)) (stream_neg_bins b) /\
   c_zero (sem (a ++ b)) = fold_left wadd (stream_zero b) (c_zero (sem a)) /\
   c_map (sem (a ++ b)) = last_mapping (c_map (sem a)) b.
-Proof. intros a b. repeat split; [apply sem_app_pos|apply sem_app_neg|apply sem_app_zero|apply sem_app_map]. Qed.
+Proof. exact sem_app_all. Qed.
 Print Assumptions C06_sem_app_bins.
 
 Theorem C06_ref_decode_concat : forall a b : stream,
@@ -406,3 +441,22 @@ Proof. vm_compute. reflexivity. Qed.
 Example C07_ex_roundtrip : ds_sig (dec_sketch_into wxT fresh (snd (enc_sketch ex_sketch false))) =
   inl ([(3%Z, 1%Q); (5%Z, 2%Q)], [((-7)%Z, 1%Q)], 2%Q, Some (0%N, 4607272490792564818%N, 0%N), []).
 Proof. vm_compute. reflexivity. Qed.
+
+(* DenseStore.Encode: a window [10, 14] with cells 1 0 2 0 1, offset 8 *)
+Definition ex_dense : dense :=
+  {| Dense.bins := [w0; w0; w1; w0; wadd w1 w1; w0; w1; w0]; count := wadd (wadd w1 w1) (wadd w1 w1); offset := 8%Z;
+     minI := 10%Z; maxI := 14%Z; lim := Exact; collapsed := false |}.
+Example C07_ex_dense : content_sig (ref_decode (enc_dense ex_dense ft_positive)) =
+  Some ([(10%Z, 1%Q); (12%Z, 2%Q); (14%Z, 1%Q)], [], 0%Q, None, ([], [], [], []))
+  /\ option_map (map block_sig) (ref_parse (enc_dense ex_dense ft_positive))
+     = Some (map block_sig [BStore false (IndexDeltasAndCounts [(10%Z, f_1); (2%Z, f_2); (2%Z, f_1)])]).
+Proof. vm_compute. split; reflexivity. Qed.
+(* no empty cell: the contiguous layout is the shorter one *)
+Definition ex_dense2 : dense :=
+  {| Dense.bins := [w0; w0; w1; wadd w1 w1; w1; w0]; count := wadd (wadd w1 w1) (wadd w1 w1); offset := 8%Z;
+     minI := 10%Z; maxI := 12%Z; lim := Exact; collapsed := false |}.
+Example C07_ex_dense_contiguous : content_sig (ref_decode (enc_dense ex_dense2 ft_positive)) =
+  Some ([(10%Z, 1%Q); (11%Z, 2%Q); (12%Z, 1%Q)], [], 0%Q, None, ([], [], [], []))
+  /\ option_map (map block_sig) (ref_parse (enc_dense ex_dense2 ft_positive))
+     = Some (map block_sig [BStore false (ContiguousCounts 10%Z 1%Z [f_1; f_2; f_1])]).
+Proof. vm_compute. split; reflexivity. Qed.
